@@ -53,10 +53,23 @@ fn setup(c: &Case) -> (Db, String) {
         script.push_str(&format!("{};\n", sql));
     }
     for sql in &c.pre {
-        db.must(sql);
+        let o = db.exec(sql);
         script.push_str(&format!("{};\n", sql));
+        if !matches!(o, Out::Count(1)) {
+            // a single-row key change to an unused key must succeed and change exactly one row
+            script.push_str(&format!("  => {}   <-- HISTORY STEP DID NOT CHANGE EXACTLY ONE ROW\n", o.brief()));
+        }
     }
     (db, script)
+}
+
+fn history_failed(script: &str, rep: &mut Report) -> bool {
+    if script.contains("HISTORY STEP DID NOT CHANGE EXACTLY ONE ROW") {
+        rep.case(script, true);
+        rep.fail(FailKind::Oracle, None, "UPDATE … SET id = <unused key> WHERE id = <existing key> did not change exactly that one row", script);
+        return true;
+    }
+    false
 }
 
 fn canon_rows(rows: &[Vec<SqlValue>]) -> Vec<String> {
@@ -145,6 +158,9 @@ fn gen_pred(r: &mut Rng, c: &Case) -> (String, Sx, &'static str) {
 
 fn run_delete(c: &Case, r: &mut Rng, model: &mut model::Model, rep: &mut Report) {
     let (mut db, script) = setup(c);
+    if history_failed(&script, rep) {
+        return;
+    }
     let (p_sql, p_sx, label) = gen_pred(r, c);
     let t = &c.schema.table;
     let pre = db.scan(t).unwrap();
@@ -216,6 +232,9 @@ fn run_delete(c: &Case, r: &mut Rng, model: &mut model::Model, rep: &mut Report)
 
 fn run_update(c: &Case, r: &mut Rng, model: &mut model::Model, rep: &mut Report) {
     let (mut db, script) = setup(c);
+    if history_failed(&script, rep) {
+        return;
+    }
     let (p_sql, p_sx, label) = gen_pred(r, c);
     let names: Vec<String> = c.schema.cols.iter().map(|x| x.0.clone()).collect();
     let g = Gen::new(&c.schema);
@@ -306,6 +325,9 @@ fn run_update(c: &Case, r: &mut Rng, model: &mut model::Model, rep: &mut Report)
 
 fn run_insert(c: &Case, r: &mut Rng, rep: &mut Report) {
     let (mut db, script) = setup(c);
+    if history_failed(&script, rep) {
+        return;
+    }
     let t = &c.schema.table;
     let pre = db.scan(t).unwrap();
     let k = r.range(1, 3) as usize;
